@@ -43,6 +43,7 @@ import hcommon as H
 H.assert_scratch_import()
 
 TOL12 = 1e-12
+PARENT = os.getpid()            # workers are forked: they see the parent's pid here
 NAMES = ['s0', 's1', 's2']
 REL = 1e-9
 
@@ -1045,6 +1046,8 @@ def worker(args):
     try:
         cases = list(extra) + [gen_case(rng, cfg) for _ in range(ncases)]
         for case in cases:
+            if os.getppid() != PARENT:      # the check timed out / was killed
+                os._exit(1)
             rec = run_case(case, None)
             rec['fingerprint'] = json.dumps(case, sort_keys=True)[:200000]
             if rec['fails'] or rec['disagreements']:
